@@ -208,7 +208,7 @@ namespace sim
         }
         if (size == 0)
             size = 1;
-        if (size > (2u << 20))
+        if (size > (256u << 10))
         {
             // an upstream that says no to very large requests: a legitimate failure, not an injected fault
             stats_too_large_++;
